@@ -14,9 +14,14 @@
 //! output (L outcome (N elapsed ms)), outcome = (L (N 0) (L method path (L [query]) version headers (L [authority]) body_outcome))
 //!        | (L (N 1) (N error class)) | (L (N 3)) = no result within HANG_S seconds (a hang);
 //!        h1.echo: (L (N 1) (N 0)) = connection closed without a response, (L (N 4) (N status)) = another response
+//!        | (L (N 3) (N 3)) = the case did not come back from its worker thread within HARD_LIMIT (twice): code that neither
+//!        returns nor yields, which the timers above cannot see
+//!
+//! Every case runs on a worker thread with a runtime of its own (`crate::c07::on_worker`): a case that is stuck keeps its
+//! thread and its runtime, and the cases after it get new ones.
 use crate::xval::X;
 use kvarn::prelude::*;
-use std::sync::{Arc, OnceLock};
+use std::sync::Arc;
 use std::time::{Duration, Instant};
 use tokio::io::{AsyncReadExt, AsyncWriteExt};
 
@@ -24,10 +29,19 @@ use tokio::io::{AsyncReadExt, AsyncWriteExt};
 const HANG_S: u64 = 20;
 pub const ECHO_HOST: &str = "echo.host";
 
-fn rt() -> &'static tokio::runtime::Runtime {
-    static RT: OnceLock<tokio::runtime::Runtime> = OnceLock::new();
-    RT.get_or_init(|| tokio::runtime::Builder::new_multi_thread().worker_threads(2).enable_all().build().expect("tokio runtime"))
+/// The longest a case can take by itself: HANG_S for the head, 10 s for a body that does not arrive, the pauses of the
+/// script (seconds at most in what the generators write); three times that.
+const HARD_LIMIT: Duration = Duration::from_secs(120);
+
+thread_local! {
+    /// one runtime per worker thread (see the module text)
+    static RT: tokio::runtime::Runtime =
+        tokio::runtime::Builder::new_multi_thread().worker_threads(2).enable_all().build().expect("tokio runtime");
 }
+fn block_on<F: std::future::Future>(f: F) -> F::Output {
+    RT.with(|rt| rt.block_on(f))
+}
+static POOL: std::sync::Mutex<Option<crate::c07::Worker>> = std::sync::Mutex::new(None);
 
 fn trouble(msg: &str) -> X {
     X::L(vec![X::N(93), X::b(msg)])
@@ -144,7 +158,7 @@ fn accept(x: &X) -> X {
         (Some(a), Some(b), Some(c), Some(d)) => (a.and_then(X::as_b).map(<[u8]>::to_vec), b, c as usize, d),
         _ => return X::bad(),
     };
-    rt().block_on(async move {
+    block_on(async move {
         let (client, server, _) = match pair().await {
             Ok(p) => p,
             Err(_) => return trouble("loopback pair"),
@@ -233,7 +247,7 @@ fn echo(x: &X) -> X {
         (Some(a), Some(b), Some(c)) => (a, b as usize, c),
         _ => return X::bad(),
     };
-    rt().block_on(async move {
+    block_on(async move {
         let (client, server, peer) = match pair().await {
             Ok(p) => p,
             Err(_) => return trouble("loopback pair"),
@@ -272,8 +286,8 @@ fn echo(x: &X) -> X {
 
 pub fn dispatch(comp: &str, x: &X) -> Option<X> {
     Some(match comp {
-        "h1.accept" => accept(x),
-        "h1.echo" => echo(x),
+        "h1.accept" => crate::c07::on_worker(&POOL, HARD_LIMIT, accept, x),
+        "h1.echo" => crate::c07::on_worker(&POOL, HARD_LIMIT, echo, x),
         _ => return None,
     })
 }
